@@ -1,4 +1,5 @@
 (** C19 — proofs. *)
+From Coq Require Import String.
 From Coq Require Import List Bool Arith Lia.
 Import ListNotations.
 Require Import Nib.C19.Sites Nib.C19.Model Nib.C19.Spec.
@@ -55,34 +56,57 @@ Proof.
       intros t Ht l Hl; destruct Hl.
 Qed.
 
-Lemma run_good W : sites_ok W = true -> forall ops s s' es,
-  run W s ops = (s', es) ->
+(** the invariant carried from state [s] to [s'] by the emits [es] *)
+Definition good (s s' : st) (es : list emit) : Prop :=
   all_log_idx es = seq (log_size s) (length (all_log_idx es)) /\
   log_size s' = log_size s + length (all_log_idx es) /\
   all_tx_idx es = seq (tx_index s) (length (all_tx_idx es)) /\
   tx_index s' = tx_index s + length (all_tx_idx es) /\
   Forall eth_logs_carry_tx es /\
   bloom s' = bloom s ++ all_logs es.
+
+Lemma good_nil s : good s s [].
+Proof. unfold good. simpl. repeat split; try lia; try constructor. rewrite app_nil_r. reflexivity. Qed.
+
+Lemma all_log_idx_app a b : all_log_idx (a ++ b) = all_log_idx a ++ all_log_idx b.
+Proof. unfold all_log_idx. rewrite map_app, concat_app. reflexivity. Qed.
+Lemma all_tx_idx_app a b : all_tx_idx (a ++ b) = all_tx_idx a ++ all_tx_idx b.
+Proof. unfold all_tx_idx. rewrite map_app, concat_app. reflexivity. Qed.
+Lemma all_logs_app a b : all_logs (a ++ b) = all_logs a ++ all_logs b.
+Proof. unfold all_logs. rewrite map_app, concat_app. reflexivity. Qed.
+
+Lemma good_app s s1 s2 a b : good s s1 a -> good s1 s2 b -> good s s2 (a ++ b).
+Proof.
+  intros (A1 & A2 & A3 & A4 & A5 & A6) (B1 & B2 & B3 & B4 & B5 & B6).
+  unfold good. rewrite all_log_idx_app, all_tx_idx_app, all_logs_app, !app_length.
+  repeat split.
+  - rewrite seq_app. f_equal; [exact A1|]. rewrite B1 at 1. rewrite A2. reflexivity.
+  - rewrite B2, A2. lia.
+  - rewrite seq_app. f_equal; [exact A3|]. rewrite B3 at 1. rewrite A4. reflexivity.
+  - rewrite B4, A4. lia.
+  - apply Forall_app. split; assumption.
+  - rewrite B6, A6, app_assoc. reflexivity.
+Qed.
+
+Lemma step_good' W s o s' e : sites_ok W = true -> step W s o = (s', e) -> good s s' [e].
+Proof.
+  intros HS Hst. destruct (step_good W s o s' e HS Hst) as (A1 & A2 & A3 & A4 & A5 & A6).
+  unfold good, all_log_idx, all_tx_idx, all_logs. cbn [map concat]. rewrite !app_nil_r, map_length.
+  repeat split; try assumption.
+  constructor; [exact A5 | constructor].
+Qed.
+
+Lemma run_good W : sites_ok W = true -> forall ops s s' es,
+  run W s ops = (s', es) -> good s s' es.
 Proof.
   intros HS. induction ops as [|o r IH]; intros s s' es Hrun.
-  - simpl in Hrun. inversion Hrun; subst. simpl.
-    repeat split; try lia; try constructor. rewrite app_nil_r. reflexivity.
+  - simpl in Hrun. inversion Hrun; subst. apply good_nil.
   - simpl in Hrun.
     destruct (step W s o) as [s1 e] eqn:Hst.
     destruct (run W s1 r) as [s2 es'] eqn:Hr.
     inversion Hrun; subst; clear Hrun.
-    destruct (step_good W s o s1 e HS Hst) as (A1 & A2 & A3 & A4 & A5 & A6).
-    destruct (IH s1 s' es' Hr) as (B1 & B2 & B3 & B4 & B5 & B6).
-    unfold all_log_idx, all_tx_idx, all_logs in *. cbn [map concat].
-    rewrite !app_length.
-    repeat split.
-    + rewrite seq_app. f_equal; [rewrite map_length in *; exact A1|].
-      rewrite B1 at 1. rewrite A2. rewrite map_length. reflexivity.
-    + rewrite B2, A2. rewrite map_length. lia.
-    + rewrite seq_app. f_equal; [exact A3|]. rewrite B3 at 1. rewrite A4. reflexivity.
-    + rewrite B4, A4. lia.
-    + constructor; assumption.
-    + rewrite B6, A6. rewrite app_assoc. reflexivity.
+    change (e :: es') with ([e] ++ es').
+    eapply good_app; [eapply step_good'; eassumption | eapply IH; eassumption].
 Qed.
 
 (** Full statement for one block (transient state starts at [init] in every block because
@@ -121,13 +145,309 @@ Lemma history_indices_consecutive W (blocks : list (list op)) :
   sites_ok W = true -> Forall (fun ops => P (snd (run_block W ops))) blocks.
 Proof. intro HS. apply Forall_forall. intros ops _. apply block_indices_consecutive; exact HS. Qed.
 
+(** * The whole block: BeginBlock phase, txs, EndBlock phase *)
+
+Lemma msgs_no_txidx W p : forall s s' es,
+  forallb msg_ok p = true -> run W s p = (s', es) -> all_tx_idx es = [].
+Proof.
+  induction p as [|o r IH]; intros s s' es Hok Hrun; simpl in *.
+  - inversion Hrun; reflexivity.
+  - apply andb_true_iff in Hok as [Ho Hr].
+    destruct (step W s o) as [s1 e] eqn:Hst. destruct (run W s1 r) as [s2 es'] eqn:Hrr.
+    inversion Hrun; subst; clear Hrun.
+    unfold all_tx_idx in *. cbn [map concat]. rewrite (IH s1 s' es' Hr Hrr), app_nil_r.
+    unfold step, msg_ok in *. destruct (o_out o); try discriminate.
+    apply negb_true_iff in Ho. rewrite Ho in Hst. inversion Hst; reflexivity.
+Qed.
+
+Lemma good_merge s s' es : good s s' es -> all_tx_idx es = [] -> good s s' [merge es].
+Proof.
+  intros (A1 & A2 & A3 & A4 & A5 & A6) Hn.
+  assert (L : all_log_idx [merge es] = all_log_idx es).
+  { unfold all_log_idx, merge. cbn [map concat e_logs]. rewrite app_nil_r, concat_map, map_map. reflexivity. }
+  assert (T : all_tx_idx [merge es] = all_tx_idx es).
+  { unfold all_tx_idx, merge. cbn [map concat e_txidx]. rewrite app_nil_r. reflexivity. }
+  assert (G : all_logs [merge es] = all_logs es).
+  { unfold all_logs, merge. cbn [map concat e_logs]. rewrite app_nil_r. reflexivity. }
+  unfold good. rewrite L, T, G. repeat split; try assumption.
+  constructor; [|constructor]. intros t Ht. exfalso.
+  unfold merge in Ht. cbn [e_txidx] in Ht. unfold all_tx_idx in Hn. rewrite Hn in Ht. discriminate.
+Qed.
+
+Lemma good_nothing s : good s s [nothing].
+Proof.
+  unfold good, all_log_idx, all_tx_idx, all_logs, nothing. simpl.
+  repeat split; try lia; try (rewrite app_nil_r; reflexivity).
+  constructor; [|constructor]. intros t Ht. discriminate.
+Qed.
+
+Lemma run_prop_good W s p s' e : sites_ok W = true -> run_prop W s p = (s', e) -> good s s' [e].
+Proof.
+  intros HS H. unfold run_prop in H. destruct (forallb msg_ok p) eqn:Hok.
+  - destruct (run W s p) as [s1 es] eqn:Hr. inversion H; subst; clear H.
+    apply good_merge; [eapply run_good; eassumption | eapply msgs_no_txidx; eassumption].
+  - inversion H; subst. apply good_nothing.
+Qed.
+
+(** a proposal with a failing message contributes nothing *)
+Lemma failed_proposal_contributes_nothing W s p :
+  forallb msg_ok p = false -> run_prop W s p = (s, nothing).
+Proof. intro H. unfold run_prop. rewrite H. reflexivity. Qed.
+
+Lemma run_props_good W : sites_ok W = true -> forall ps s s' es,
+  run_props W s ps = (s', es) -> good s s' es.
+Proof.
+  intros HS. induction ps as [|p r IH]; intros s s' es H; simpl in H.
+  - inversion H; subst. apply good_nil.
+  - destruct (run_prop W s p) as [s1 e] eqn:Hp. destruct (run_props W s1 r) as [s2 es'] eqn:Hr.
+    inversion H; subst; clear H. change (e :: es') with ([e] ++ es').
+    eapply good_app; [eapply run_prop_good; eassumption | eapply IH; eassumption].
+Qed.
+
+(** EndBlock phase, any order: indices stay consecutive *)
+Lemma run_end_good W em : sites_ok W = true -> forall order s s' es pubs,
+  run_end W order em s = (s', es, pubs) -> good s s' es.
+Proof.
+  intros HS. induction order as [|m r IH]; intros s s' es pubs H; simpl in H.
+  - inversion H; subst. apply good_nil.
+  - destruct (classify m).
+    + eapply IH; eassumption.
+    + destruct (run_props W s (lookup m em)) as [s1 es1] eqn:Hp.
+      destruct (run_end W r em s1) as [[s2 es2] pubs2] eqn:Hr.
+      inversion H; subst; clear H.
+      eapply good_app; [eapply run_props_good; eassumption | eapply IH; eassumption].
+    + destruct (run_end W r em s) as [[s2 es2] pubs2] eqn:Hr.
+      inversion H; subst; clear H. eapply IH; eassumption.
+Qed.
+
+Lemma run_end_inert W em : forall order s, forallb is_inert order = true -> run_end W order em s = (s, [], []).
+Proof.
+  induction order as [|m r IH]; intros s H; simpl in *; [reflexivity|].
+  apply andb_true_iff in H as [Hm Hr]. unfold is_inert in Hm.
+  destruct (classify m); try discriminate. apply IH; exact Hr.
+Qed.
+
+(** … and when x/evm's EndBlocker runs after every message-executing one, the one published bloom is the final one *)
+Lemma run_end_pub W em : forall order s s' es pubs,
+  order_ok order = true -> run_end W order em s = (s', es, pubs) -> pubs = [bloom s'].
+Proof.
+  induction order as [|m r IH]; intros s s' es pubs Hok H; simpl in *; [discriminate|].
+  destruct (classify m).
+  - eapply IH; eassumption.
+  - destruct (run_props W s (lookup m em)) as [s1 es1]. destruct (run_end W r em s1) as [[s2 es2] pubs2] eqn:Hr.
+    inversion H; subst; clear H. eapply IH; eassumption.
+  - rewrite (run_end_inert W em r s Hok) in H. inversion H; subst. reflexivity.
+Qed.
+
+Lemma run_full_good W O b : sites_ok W = true ->
+  good init (r_final (run_full W O b)) (r_emits (run_full W O b)).
+Proof.
+  intros HS. unfold run_full.
+  destruct (run W init (b_begin b)) as [s0 eb] eqn:H0.
+  destruct (run W s0 (b_txs b)) as [s1 et] eqn:H1.
+  destruct (run_end W (end_order O) (b_end b) s1) as [[s2 ee] pubs] eqn:H2.
+  cbn [r_final r_emits].
+  eapply good_app; [eapply run_good; eassumption|].
+  eapply good_app; [eapply run_good; eassumption| eapply run_end_good; eassumption].
+Qed.
+
+Lemma full_indices_consecutive W O b : sites_ok W = true -> P (r_emits (run_full W O b)).
+Proof.
+  intros HS. destruct (run_full_good W O b HS) as (A1 & _ & A3 & _ & A5 & _).
+  split; [exact A1|]. split; [exact A3| exact A5].
+Qed.
+
+Lemma all_logs_length es : length (all_logs es) = length (all_log_idx es).
+Proof.
+  unfold all_log_idx, all_logs. induction es as [|e es IH]; simpl; [reflexivity|].
+  rewrite !app_length, map_length, IH. reflexivity.
+Qed.
+
+Lemma full_bloom_is_union W O b : sites_ok W = true -> wiring_ok O = true ->
+  Pbloom (r_emits (run_full W O b)) (r_pubs (run_full W O b)) /\
+  log_size (r_final (run_full W O b)) = length (all_logs (r_emits (run_full W O b))).
+Proof.
+  intros HS HO. unfold wiring_ok in HO.
+  pose proof (run_full_good W O b HS) as G. destruct G as (_ & A2 & _ & _ & _ & A6).
+  split; [| rewrite A2, all_logs_length; reflexivity].
+  unfold Pbloom. rewrite <- (app_nil_l (all_logs _)). change (@nil (nat * nat)) with (bloom init). rewrite <- A6.
+  clear A2 A6. unfold run_full.
+  destruct (run W init (b_begin b)) as [s0 eb]. destruct (run W s0 (b_txs b)) as [s1 et].
+  destruct (run_end W (end_order O) (b_end b) s1) as [[s2 ee] pubs] eqn:H2.
+  cbn [r_pubs r_final]. eapply run_end_pub; eassumption.
+Qed.
+
+Lemma history_full W O (blocks : list block) : sites_ok W = true -> wiring_ok O = true ->
+  Forall (fun b => P (r_emits (run_full W O b)) /\ Pbloom (r_emits (run_full W O b)) (r_pubs (run_full W O b))) blocks.
+Proof.
+  intros HS HO. apply Forall_forall. intros b _. split.
+  - apply full_indices_consecutive; exact HS.
+  - apply full_bloom_is_union; assumption.
+Qed.
+
+(** The order matters.  With x/evm's EndBlocker BEFORE x/gov's (the list of a tree in which evm.ModuleName was
+    moved up in orderedModuleNames), a passed proposal carrying a MsgCreateFunToken emits a log that the
+    published bloom does not contain. *)
+Definition good_sites : sites :=
+  {| s_eth := BaseTxCfgLogIndex; s_deploy := BaseTxCfgLogIndex; s_conv_coin := BaseLogSize;
+     s_conv_erc20 := BaseLogSize; addlog_index_from_cfg := true; cfg_reads_transient := true;
+     txindex_incremented := true; logsize_set_formula := true; n_call_sites := 4 |}.
+
+Definition mkop k o n := {| o_kind := k; o_out := o; o_k := n |}.
+
+Definition evm_before_gov : wiring :=
+  {| end_order := ["upgrade"; "capability"; "auth"; "bank"; "evm"; "distribution"; "staking"; "slashing"; "crisis"; "gov"; "genutil"]%string;
+     begin_order := []; evm_beginblock_noop := true |}.
+
+Definition gov_block : block :=
+  {| b_begin := []; b_txs := [mkop Eth Ok 1]; b_end := [("gov"%string, [[mkop Create Ok 1]])] |}.
+
+Lemma evm_before_gov_refuted :
+  sites_ok good_sites = true /\
+  exists b, ~ Pbloom (r_emits (run_full good_sites evm_before_gov b)) (r_pubs (run_full good_sites evm_before_gov b)).
+Proof. split; [reflexivity|]. exists gov_block. vm_compute. discriminate. Qed.
+
+(** … and in general: whenever the order fact fails (no x/evm EndBlocker, two of them, or a message-executing /
+    unknown EndBlocker after it) some block publishes a bloom that is not the union — for ANY call-site facts. *)
+Lemma step_bloom W s o : bloom (fst (step W s o)) = bloom s ++ e_logs (snd (step W s o)).
+Proof.
+  unfold step. destruct (o_out o); try destruct (is_eth (o_kind o)); simpl; try (rewrite app_nil_r); reflexivity.
+Qed.
+
+Lemma run_bloom W : forall ops s s' es, run W s ops = (s', es) -> bloom s' = bloom s ++ all_logs es.
+Proof.
+  induction ops as [|o r IH]; intros s s' es H; simpl in H.
+  - inversion H; subst. unfold all_logs. simpl. rewrite app_nil_r. reflexivity.
+  - pose proof (step_bloom W s o) as B. destruct (step W s o) as [s1 e]. destruct (run W s1 r) as [s2 es'] eqn:Hr.
+    inversion H; subst; clear H. rewrite (IH _ _ _ Hr). simpl in B. rewrite B.
+    unfold all_logs. cbn [map concat]. rewrite app_assoc. reflexivity.
+Qed.
+
+Lemma run_prop_bloom W s p s' e : run_prop W s p = (s', e) -> bloom s' = bloom s ++ e_logs e.
+Proof.
+  unfold run_prop. destruct (forallb msg_ok p).
+  - destruct (run W s p) as [s1 es] eqn:Hr. intro H; inversion H; subst. rewrite (run_bloom W _ _ _ _ Hr). reflexivity.
+  - intro H; inversion H; subst. simpl. rewrite app_nil_r. reflexivity.
+Qed.
+
+Lemma run_props_bloom W : forall ps s s' es, run_props W s ps = (s', es) -> bloom s' = bloom s ++ all_logs es.
+Proof.
+  induction ps as [|p r IH]; intros s s' es H; simpl in H.
+  - inversion H; subst. unfold all_logs. simpl. rewrite app_nil_r. reflexivity.
+  - destruct (run_prop W s p) as [s1 e] eqn:Hp. destruct (run_props W s1 r) as [s2 es'] eqn:Hr.
+    inversion H; subst; clear H. rewrite (IH _ _ _ Hr), (run_prop_bloom W _ _ _ _ Hp).
+    unfold all_logs. cbn [map concat]. rewrite app_assoc. reflexivity.
+Qed.
+
+Lemma run_end_bloom W em : forall order s s' es pubs,
+  run_end W order em s = (s', es, pubs) -> bloom s' = bloom s ++ all_logs es.
+Proof.
+  induction order as [|m r IH]; intros s s' es pubs H; simpl in H.
+  - inversion H; subst. unfold all_logs. simpl. rewrite app_nil_r. reflexivity.
+  - destruct (classify m).
+    + eapply IH; eassumption.
+    + destruct (run_props W s (lookup m em)) as [s1 es1] eqn:Hp.
+      destruct (run_end W r em s1) as [[s2 es2] pubs2] eqn:Hr. inversion H; subst; clear H.
+      rewrite (IH _ _ _ _ Hr), (run_props_bloom W _ _ _ _ Hp), all_logs_app, app_assoc. reflexivity.
+    + destruct (run_end W r em s) as [[s2 es2] pubs2] eqn:Hr. inversion H; subst; clear H. eapply IH; eassumption.
+Qed.
+
+Definition one_log : list proposal := [[mkop Create Ok 1]].
+Definition every_module_executes (order : list string) : endmsgs := map (fun m => (m, one_log)) order.
+
+Lemma lookup_every m : forall order, In m order -> lookup m (every_module_executes order) = one_log.
+Proof.
+  induction order as [|n r IH]; intros H; simpl in *; [contradiction|].
+  destruct (String.eqb m n) eqn:E; [reflexivity|]. destruct H as [H|H]; [subst; rewrite String.eqb_refl in E; discriminate | auto].
+Qed.
+
+Lemma one_log_grows W s s' es : run_props W s one_log = (s', es) -> length (bloom s') = S (length (bloom s)).
+Proof.
+  unfold one_log. simpl. unfold run_prop. simpl. intro H. inversion H; subst. simpl. rewrite app_length. simpl. lia.
+Qed.
+
+Lemma after_publish_seen W em : forall r s s2 es2 pubs2,
+  (forall m, In m r -> lookup m em = one_log) ->
+  forallb is_inert r = false -> run_end W r em s = (s2, es2, pubs2) ->
+  pubs2 <> [] \/ length (bloom s2) > length (bloom s).
+Proof.
+  induction r as [|m r IH]; intros s s2 es2 pubs2 Hem Hni H; simpl in *; [discriminate|].
+  unfold is_inert in Hni. destruct (classify m) eqn:C.
+  - simpl in Hni. eapply IH; try eassumption. intros; apply Hem; right; assumption.
+  - right. rewrite (Hem m (or_introl eq_refl)) in H.
+    destruct (run_props W s one_log) as [s1 es1] eqn:Hp. destruct (run_end W r em s1) as [[s3 es3] pubs3] eqn:Hr.
+    inversion H; subst; clear H. apply one_log_grows in Hp. apply run_end_bloom in Hr.
+    rewrite Hr, app_length. lia.
+  - left. destruct (run_end W r em s) as [[s3 es3] pubs3]. inversion H; subst. discriminate.
+Qed.
+
+Lemma bad_order_pub W em : forall order s s' es pubs,
+  (forall m, In m order -> lookup m em = one_log) ->
+  order_ok order = false -> run_end W order em s = (s', es, pubs) -> pubs <> [bloom s'].
+Proof.
+  induction order as [|m r IH]; intros s s' es pubs Hem Hbad H; simpl in *.
+  - inversion H; subst. discriminate.
+  - assert (Hem' : forall n, In n r -> lookup n em = one_log) by (intros; apply Hem; right; assumption).
+    destruct (classify m) eqn:C.
+    + eapply IH; eassumption.
+    + destruct (run_props W s (lookup m em)) as [s1 es1]. destruct (run_end W r em s1) as [[s2 es2] pubs2] eqn:Hr.
+      inversion H; subst; clear H. eapply IH; eassumption.
+    + destruct (run_end W r em s) as [[s2 es2] pubs2] eqn:Hr. inversion H; subst; clear H.
+      destruct (after_publish_seen W em r s s' es pubs2 Hem' Hbad Hr) as [Hp|Hl].
+      * intro E. inversion E. contradiction.
+      * intro E. inversion E as [[E1 E2]]. rewrite E1 in Hl. lia.
+Qed.
+
+Lemma bad_order_refuted W O : order_ok (end_order O) = false ->
+  exists b, ~ Pbloom (r_emits (run_full W O b)) (r_pubs (run_full W O b)).
+Proof.
+  intro Hbad. exists {| b_begin := []; b_txs := []; b_end := every_module_executes (end_order O) |}.
+  unfold Pbloom, run_full. cbn [b_begin b_txs b_end run].
+  destruct (run_end W (end_order O) (every_module_executes (end_order O)) init) as [[s2 ee] pubs] eqn:Hr.
+  cbn [r_emits r_pubs]. rewrite !app_nil_l.
+  pose proof (run_end_bloom W _ _ _ _ _ _ Hr) as B. simpl in B. rewrite <- B.
+  eapply bad_order_pub; try eassumption. intros m Hm. apply lookup_every; exact Hm.
+Qed.
+
+Lemma full_pbloom W O b : order_ok (end_order O) = true ->
+  Pbloom (r_emits (run_full W O b)) (r_pubs (run_full W O b)).
+Proof.
+  intro HO. unfold Pbloom, run_full.
+  destruct (run W init (b_begin b)) as [s0 eb] eqn:H0. destruct (run W s0 (b_txs b)) as [s1 et] eqn:H1.
+  destruct (run_end W (end_order O) (b_end b) s1) as [[s2 ee] pubs] eqn:H2.
+  cbn [r_pubs r_emits]. rewrite (run_end_pub W _ _ _ _ _ _ HO H2).
+  rewrite (run_end_bloom W _ _ _ _ _ _ H2), (run_bloom W _ _ _ _ H1), (run_bloom W _ _ _ _ H0).
+  simpl. rewrite !all_logs_app, app_assoc. reflexivity.
+Qed.
+
+Lemma bloom_union_iff_order W O :
+  (forall b, Pbloom (r_emits (run_full W O b)) (r_pubs (run_full W O b))) <-> order_ok (end_order O) = true.
+Proof.
+  split.
+  - intro H. destruct (order_ok (end_order O)) eqn:E; [reflexivity|].
+    destruct (bad_order_refuted W O E) as [b Hb]. exfalso. apply Hb. apply H.
+  - intros HO b. apply full_pbloom; exact HO.
+Qed.
+
+Example full_block_nonvacuous :
+  let O := {| end_order := ["bank"; "staking"; "gov"; "oracle"; "evm"; "wasm"]%string; begin_order := []; evm_beginblock_noop := true |} in
+  let b := {| b_begin := []; b_txs := [mkop Eth Ok 1; mkop Create Ok 1];
+              b_end := [("gov"%string, [[mkop Create Ok 1; mkop ConvCoin Ok 1]; [mkop Create Ok 1; mkop ConvCoin FailMsg 0]; [mkop ConvErc20 Ok 2]])] |} in
+  wiring_ok O = true /\
+  r_emits (run_full good_sites O b) =
+    [ {| e_ok := true; e_txidx := [0]; e_logs := [(0,0)] |};
+      {| e_ok := true; e_txidx := []; e_logs := [(1,1)] |};
+      {| e_ok := true; e_txidx := []; e_logs := [(2,1);(3,1)] |};
+      nothing;
+      {| e_ok := true; e_txidx := []; e_logs := [(4,1);(5,1)] |} ] /\
+  r_pubs (run_full good_sites O b) = [[(0,0);(1,1);(2,1);(3,1);(4,1);(5,1)]].
+Proof. vm_compute. repeat split; reflexivity. Qed.
+
 (** The pinned (pre-fix) tree: deploy passed 0, both convert paths passed BlockTxIndex. *)
 Definition pinned_sites : sites :=
   {| s_eth := BaseTxCfgLogIndex; s_deploy := BaseZero; s_conv_coin := BaseTxIndex;
      s_conv_erc20 := BaseTxIndex; addlog_index_from_cfg := true; cfg_reads_transient := true;
      txindex_incremented := true; logsize_set_formula := true; n_call_sites := 4 |}.
-
-Definition mkop k o n := {| o_kind := k; o_out := o; o_k := n |}.
 
 Lemma pinned_tree_refuted :
   exists ops, Pb (snd (run_block pinned_sites ops)) = false.
